@@ -385,7 +385,8 @@ DIRECTED = [
     "http://example.com/x?sidney=1&fbclidx=2&gclidx=3&utm=4&xtorx=5&ampx=6&_gax=7&usqpx=8&seenx=9&cfidx=a&refidx=b&xsid=c&myfbclid=d&xutm_source=e&preamp=f&notref=twitter&sid=1&fbclid=2",
     "http://example.com/a/index.tar.gz", "http://example.com/a/default.min.js", "http://example.com/a/index.foo.bar/", "http://example.com/a/.index", "http://example.com/a/index.", "http://example.com/?id=&id&ID=1&Id=2", "http://example.com/?q=a+b&q=a%20b&%71=c",
 ]
-UNPARSEABLE = ["", " ", "http://", "/rel", "?q", "#f", "http://a.com:abc/", "http://a.com:99999/", "http://[::1", "]", "https://ohioamf.org]", "http://[x]/", "a.com:port", "\x00", "http:///x", "://"]
+UNPARSEABLE = ["", " ", "http://", "/rel", "?q", "#f", "http://a.com:abc/", "http://a.com:99999/", "http://[::1", "]", "https://ohioamf.org]", "http://[x]/", "a.com:port", "\x00", "http:///x", "://",
+               "http://bad]host/?next=/foo", "http://[::1/?u=/x", "http://a.com:abc/?url=http%3A%2F%2Fb.org", "]?redirect=/y"]  # unparseable AND redirect-carrying
 
 
 def pairwise_vectors(rng, n):
